@@ -256,7 +256,11 @@ def failure_props(c):
     if c["kind"] in ("overflow", "bounds", "decreases") and fr.props_safety:
         return list(fr.props_safety)
     if c["kind"] == "pre":
-        # a failed callee precondition is a safety obligation when the callee is code (index, slice) and a proof obligation
-        # when it is a lemma: charged to both groups
+        # a failed callee precondition is a safety obligation when the callee is code (index, slice, shim with std's panic condition)
+        # and a proof obligation when the callee is a lemma / axiom call inserted by the unit (then it says nothing about panics)
+        txt = (c.get("orig_text") or "") + " " + (c.get("message") or "")
+        import re as _re
+        if _re.search(r"\b(lemma_|axiom_)\w*\s*(::<[^>]*>)?\s*\(", txt) and not _re.search(r"\bshim_\w+\s*\(", txt):
+            return list(fr.props_all or fr.props_safety)
         return sorted(set(fr.props_safety) | set(fr.props_all))
     return list(fr.props_all or fr.props_safety)
